@@ -200,7 +200,10 @@ def check_locks(chk, tier):
         raise vlib.ToolError("lock programs show no nesting: hooks off?")
     seg_path = os.path.join(chk.out, "segments.ndjson")
     vlib.write_ndjson(seg_path, segs)
-    reduced1 = leaf_reduce(segs)
+    # (the caches of the aggregate stores are innermost locks of their own:
+    # the first round takes those away, the rounds after it what used to be
+    # rounds one and two before the caches were hooked)
+    reduced1 = leaf_reduce(leaf_reduce(segs))
     reduced = leaf_reduce(reduced1)
     red_path = os.path.join(chk.out, "segments_reduced.ndjson")
     vlib.write_ndjson(red_path, reduced)
@@ -211,7 +214,7 @@ def check_locks(chk, tier):
     vlib.log(f"lock programs: {stats['programs']} programs, "
              f"{stats['steps']} steps -> {len(segs)} distinct segments "
              f"({stats['segment_steps']} steps); {len(reduced1)} / "
-             f"{len(reduced)} segments after one / two rounds of leaf-lock "
+             f"{len(reduced)} segments after two / three rounds of leaf-lock "
              f"elimination")
     if not reduced:
         raise vlib.ToolError("nothing left after leaf-lock elimination")
@@ -250,7 +253,7 @@ def leaf_reduce(segs):
     while acquiring another one cannot be held or waited for in a deadlock
     (all its holder does before releasing it is releasing), so its
     acquisitions can be dropped without losing any deadlock; by induction
-    the same holds for a second round on the reduced programs. Used for the
+    the same holds for every further round on the reduced programs. Used for the
     runs whose full state space is out of reach (4 threads; 3 threads in
     the quick tier)."""
     inner = set()       # locks held while something else is acquired
@@ -313,6 +316,9 @@ def ops_for_kind(kind, seg, rng):
     if kind == "child_upd":
         return [{"k": kind, "ca": "A", "child": "B", "ent": "l"},
                 {"k": kind, "ca": "A", "child": "B", "ent": "s"}]
+    if kind in ("ca_add", "ca_id", "ca_del"):
+        return [{"k": "ca_add", "ca": "Z"}, {"k": "ca_id", "ca": "Z"},
+                {"k": "ca_id", "ca": "Z"}, {"k": "ca_del", "ca": "Z"}]
     if kind in ("pub_add", "pub_rm"):
         return [{"k": "pub_add", "p": "y"}, {"k": "pub_rm", "p": "y"}]
     if kind in ("pub_show", "del_files"):
@@ -940,11 +946,13 @@ def run(tier, seed):
         "observation: CaStatusStore.cache (write-locked around every access "
         "to the status namespace), RepositoryContentProxy.update_lock and "
         "RsyncdStore.lock (nested, no storage access inside); the caches of "
-        "AggregateStore/WalStore and the signer maps are never held while "
-        "another lock is acquired and are left out",
+        "AggregateStore/WalStore are observed through a drop-in lock type "
+        "(any new code that locks them is recorded as well); the signer "
+        "maps are never held while another lock is acquired and are left "
+        "out",
         "2 threads (quick) / 2 and 3 threads (thorough) are checked on the "
-        "complete lock segments; 3 threads in the quick tier after one "
-        "round and 4 threads after two rounds of leaf-lock elimination "
+        "complete lock segments; 3 threads in the quick tier after two "
+        "rounds and 4 threads after three rounds of leaf-lock elimination "
         "(sound for deadlocks, see leaf_reduce in checks/c18.py); the "
         "model's flock and non-preferring RwLock semantics coincide",
         "real schedules are sampled: seeded scenarios with delay injection "
